@@ -1264,8 +1264,8 @@ def run_c14(ctx):
     I = lambda v: {"k": "int", "v": v}
     idn = lambda v: {"k": "id", "v": v}
     nest = lambda d, x: x if d == 0 else lst([I(d), nest(d - 1, x), idn("pad%d" % d)])
-    for i in range(160 if q else 1200):
-        d = 1 + i % 5
+    for i in range(480 if q else 2400):
+        d = 2 + (i // 16) % 5
         needle = [I(77), idn("needle"), lst([I(1), I(2)]), ins("NOOP")][i % 4]
         s = gen.empty_state()
         s["code"] = [needle, nest(d, needle)] if i % 2 else [nest(d, needle), needle]
